@@ -299,6 +299,16 @@ func variantExs(r *rand.Rand, shape, mode int) []bex {
 
 // bundle-gen <tier>: seeded random bundles: 0..N exchanges, URL shapes, header maps with names in random case
 // and several values, status 100..999, body lengths around every CBOR head boundary.
+// hdrNames: all header names of an exchange record, joined
+func hdrNames(e bex) []byte {
+	var o []byte
+	for _, h := range e.Hdrs {
+		o = append(o, unints(h.N)...)
+		o = append(o, ' ')
+	}
+	return o
+}
+
 func bundleGen(args []string) error {
 	thorough := len(args) > 0 && args[0] == "thorough"
 	r := rand.New(rand.NewSource(seed()))
@@ -317,6 +327,26 @@ func bundleGen(args []string) error {
 			b.Exs = append(b.Exs, bex{URL: ints([]byte("https://a.test/big")), Status: 200, Hdrs: []hent{}, Body: ints(randBytes(r, bl))},
 				bex{URL: ints([]byte("https://a.test/after")), Status: 200, Hdrs: []hent{}, Body: ints(randBytes(r, 3))})
 			wrEvent(fmt.Sprintf("fix%d%s", bi, ver), &b, dests[bi%4])
+		}
+	}
+	// fixed instances: two and three exchanges that carry one and the same response (empty / non-empty body, with / without fields)
+	for ti, nb := range []int{0, 5, 300} {
+		for _, ver := range []string{"b1", "b2"} {
+			for _, cnt := range []int{2, 3} {
+				b := emptyB()
+				b.Ver = ver
+				b.HasPrimary, b.Primary = true, ints([]byte("https://a.test/t0"))
+				hd := []hent{}
+				if ti > 0 {
+					hd = []hent{{N: ints([]byte("content-type")), Vs: [][]int{ints([]byte("text/plain"))}}}
+				}
+				body := ints(randBytes(r, nb))
+				for c := 0; c < cnt; c++ {
+					b.Exs = append(b.Exs, bex{URL: ints([]byte(fmt.Sprintf("https://a.test/t%d", c))), Status: 200, Hdrs: hd, Body: body})
+				}
+				b.Exs = append(b.Exs, bex{URL: ints([]byte("https://a.test/other")), Status: 200, Hdrs: []hent{}, Body: ints([]byte("other"))})
+				wrEvent(fmt.Sprintf("twin%d-%d%s", ti, cnt, ver), &b, dests[(ti+cnt)%4])
+			}
 		}
 	}
 	// fixed instances: every shape of variant set in every mode, alone and next to a plain URL
@@ -403,6 +433,19 @@ func bundleGen(args []string) error {
 		// b1: a URL with a variant set over 1..3 axes (complete / one representation missing / one repeated / ...), next to the others
 		if b.Ver == "b1" && i%3 == 0 {
 			b.Exs = append(b.Exs, variantExs(r, r.Intn(4), r.Intn(6))...)
+		}
+		// twins: the response of an exchange of this bundle (status, header fields, body - equal byte for byte) once or twice
+		// more under other URLs; every exchange is an item of its own in the file
+		if i%5 == 2 && len(b.Exs) > 0 {
+			src := b.Exs[r.Intn(len(b.Exs))]
+			if !strings.Contains(strings.ToLower(fmt.Sprint(string(hdrNames(src)))), "variant") {
+				for t := 0; t <= r.Intn(2); t++ {
+					tw := src
+					tw.URL = ints([]byte(fmt.Sprintf("https://twin.test/%d/%d", i, t)))
+					pos := r.Intn(len(b.Exs) + 1)
+					b.Exs = append(b.Exs[:pos], append([]bex{tw}, b.Exs[pos:]...)...)
+				}
+			}
 		}
 		// a URL whose query is not valid UTF-8 (url.Parse takes it, the index key is a CBOR text string)
 		if i%17 == 5 {
